@@ -593,9 +593,12 @@ def rule_continuation(ck, methods, all_acc):
                 n += 1
                 ck.ob("C06.continuation", pl, st, okr, "only HTTP whitespace (SP / HTAB) is stripped from the continuation line")
     # the non-continuation branch funnels through add()
-    adds = [c for c in q.calls(pl.node) if q.dotted(c.func) == "self.add"]
+    pline = byname["parse_line"]
+    adds = [c for c in q.calls(pline.node) if q.dotted(c.func) == "self.add"]
+    if not adds and any(isinstance(c, ast.Call) and (q.dotted(c.func) or "").startswith("self._") for c in q.calls(pline.node)):
+        raise AnalysisError("C06.continuation: parse_line delegates to a helper that could not be inlined; cannot see how ordinary lines are stored")
     n += 1
-    ck.ob("C06.continuation", pl, pl.node, len(adds) >= 1, "an ordinary header line is stored through self.add()", construct="parse_line without self.add")
+    ck.ob("C06.continuation", pline, pline.node, len(adds) >= 1, "an ordinary header line is stored through self.add()", construct="parse_line without self.add")
     return n
 
 
@@ -665,6 +668,8 @@ def rule_value_exact(ck, methods, all_acc):
 
 
 def run(ck):
+    from ..x_resolve import install_prepared
+    install_prepared(ck, __file__)
     ck.rule("C06.partial-cache", "_combined_cache is a partial memo: every access that assumes presence (del cache[k], cache[k] load, pop(k) without default) is dominated by a membership test or a same-key store")
     ck.rule("C06.coherence", "every mutation of _as_list[k] (store, append, += on an element, delete) is accompanied on every path by a store/invalidation of _combined_cache[k]")
     ck.rule("C06.cache-value", "what is memoised under k is ','.join(_as_list[k]) (or the single value stored as [value] in the same method)")
@@ -680,7 +685,17 @@ def run(ck):
     ck.need(len(methods) >= 14, "only %d HTTPHeaders methods found" % len(methods))
     ck.need(len({f.qualname for f in methods}) == len(methods), "duplicate method definitions in HTTPHeaders (unknown idiom)")
     orig_nodes = {id(f.node) for f in methods}
-    methods = [normalise(f) for f in methods]  # aliases of self.<attr> / literal-table loops are looked through
+    methods = [ck.prepare(f) for f in methods]  # private helpers inlined; aliases of self.<attr> / literal-table loops looked through
+    # a private helper method is analysed as part of its callers (inlined there); it is not an API entry point whose
+    # parameters are caller-supplied names.  If some call of it could not be inlined the class is not fully recognised.
+    import re as _re_
+    known = set(_re_.findall(r"[A-Za-z_][A-Za-z0-9_]*", open(__file__).read()))
+    helpers = [f for f in methods if f.name.startswith("_") and not (f.name.startswith("__") and f.name.endswith("__")) and f.name not in known]
+    for h_ in helpers:
+        still = [m_.qualname for m_ in methods if m_ is not h_ and m_ not in helpers and any(isinstance(c, ast.Call) and q.dotted(c.func) in ("self." + h_.name, "cls." + h_.name, CLS + "." + h_.name) for c in ast.walk(m_.node))]
+        if still:
+            raise AnalysisError("C06: private helper %s could not be inlined into %s; the class is not fully recognised" % (h_.qualname, ", ".join(still)))
+    methods = [f for f in methods if f not in helpers]
     all_acc = {}
     for fi in methods:
         ck.use(fi)
